@@ -77,10 +77,12 @@ def run_episode(
     max_steps: int = 10_000,
     extra_pad: int = 0,
     forced: Optional[List[List[int]]] = None,
+    strict_forced: bool = True,
 ) -> Episode:
     """Drive `env` from `env.reset(td0)` until all rows are done (plus `extra_pad` further steps).
     `choose(row, step, feasible_actions)` picks the action; `forced[row]` (optional) prescribes a
-    prefix of actions for that row."""
+    prefix of actions for that row; with `strict_forced=False` a prescribed action is only taken when the
+    real mask offers it (otherwise `choose` decides), so the run stays mask-confined."""
     td = env.reset(td0.clone())
     B = td.batch_size[0]
     ep = Episode(B)
@@ -110,7 +112,7 @@ def run_episode(
                 stop = True
                 acts.append(0)
                 continue
-            if forced is not None and t < len(forced[r]):
+            if forced is not None and forced[r] is not None and t < len(forced[r]) and (strict_forced or forced[r][t] in feas):
                 a = forced[r][t]
             else:
                 a = choose(r, t, feas)
